@@ -548,8 +548,21 @@ func cmdCheck(args []string) {
 				}
 			}
 		}
+		reduced := false
+		for _, j := range a.jobs {
+			for _, ev2 := range j.res.Events {
+				if ev2.Kind == "budget" {
+					reduced = true
+				}
+			}
+		}
 		for _, c := range a.spec.Covers {
 			if covers[c] == 0 {
+				if reduced {
+					// the cases that would reach it may be among those not explored in time: stated, not a verdict
+					ev.Reduced = append(ev.Reduced, fmt.Sprintf("%s: vacuity witness %q not reached by the explored cases", id, c))
+					continue
+				}
 				ev.Inconclusive = append(ev.Inconclusive, fmt.Sprintf("%s: vacuity witness %q never reached", id, c))
 			}
 		}
